@@ -25,7 +25,16 @@ def _blob(tag, length, seed):
         out = bytes(0x61 + (b % 26) for b in out)
     if tag == 3:
         out = b'x/' + out[2:] if length > 2 else out      # never collide with a well-known name
+    if tag == 2 and seed % 2 == 1:
+        # every other routing tag is non-ASCII text (2-byte UTF-8 characters): the format's limit and length prefix count BYTES
+        out = ('\u00e9' * (length // 2)).encode('utf-8') + (b'z' if length % 2 else b'')
     return out
+
+
+def _tag_value(length, seed):
+    """what the application passes as a routing tag: bytes, or - for the non-ASCII ones - the text itself (str)"""
+    b = _blob(2, length, seed)
+    return b.decode('utf-8') if seed % 2 == 1 else b
 
 
 def expand(items, seed):
@@ -61,7 +70,7 @@ def build_entry(e, seed, use_enum, names_by_id, enum_by_id):
     if k == 'generic':
         return CompositeMetadataItem(m(e['mime']), _blob(1, e['cl'], seed))
     if k == 'routing':
-        return RoutingMetadata([_blob(2, t, seed + i) for i, t in enumerate(e['tags'])])
+        return RoutingMetadata([_tag_value(t, seed + i) for i, t in enumerate(e['tags'])])
     if k == 'auth_simple':
         return AuthenticationContent(AuthenticationSimple(_blob(4, e['a'], seed), _blob(5, e['b'], seed)))
     if k == 'auth_bearer':
